@@ -1832,6 +1832,7 @@ size_t ZSTD_estimateCCtxSize(int compressionLevel)
 {
     int level;
     size_t memBudget = 0;
+    if (compressionLevel > ZSTD_maxCLevel()) compressionLevel = ZSTD_maxCLevel();   /* larger values are clamped by the parameter tables anyway */
     for (level=MIN(compressionLevel, 1); level<=compressionLevel; level++) {
         /* Ensure monotonically increasing memory usage as compression level increases */
         size_t const newMB = ZSTD_estimateCCtxSize_internal(level);
@@ -1889,6 +1890,7 @@ size_t ZSTD_estimateCStreamSize(int compressionLevel)
 {
     int level;
     size_t memBudget = 0;
+    if (compressionLevel > ZSTD_maxCLevel()) compressionLevel = ZSTD_maxCLevel();   /* larger values are clamped by the parameter tables anyway */
     for (level=MIN(compressionLevel, 1); level<=compressionLevel; level++) {
         size_t const newMB = ZSTD_estimateCStreamSize_internal(level);
         if (newMB > memBudget) memBudget = newMB;
